@@ -42,6 +42,10 @@ def main():
     shutil.copytree("/repo/simple_ddl_parser", root + "/simple_ddl_parser", ignore=ig)
     shutil.copytree("/repo/tests", root + "/tests", ignore=ig)
     env = dict(os.environ, PYTHONPATH=root, PYTHONDONTWRITEBYTECODE="1", PYTHONHASHSEED="0")
+    # some demonstrations compare against the committed files (git show HEAD:...): the copy is a repository of its own
+    sh(["git", "init", "-q"], cwd=root)
+    sh(["git", "add", "-A"], cwd=root)
+    sh(["git", "-c", "user.name=a", "-c", "user.email=a@b", "commit", "-qm", "base"], cwd=root)
     ran = []
     meta = {"id": sid, "property": prop, "base_commit": sh(["git", "-C", "/repo", "rev-parse", "HEAD"]).stdout.strip(),
             "confirmed_at": time.strftime("%Y-%m-%dT%H:%M:%SZ", time.gmtime())}
@@ -62,6 +66,13 @@ def main():
         ran.append({"cmd": "pytest -q tests (unedited suite) on patched copy", "exit": t.returncode, "tail": [last]})
         print("[%s] tests: %s" % (sid, last))
         ok &= t.returncode == 0 and "308 passed" in last
+        # files the test run itself rewrote (PLY regenerates parsetab.py when it rejects the shipped one) go back to what the
+        # patch author committed: the checks must see the tree as patched, not as healed by a test run
+        for l in sh(["git", "status", "--porcelain"], cwd=root).stdout.splitlines():
+            f = l[3:].strip()
+            if l[:2].strip() == "M" and f not in files and f.endswith(".py"):
+                sh(["git", "checkout", "--", f], cwd=root)
+                ran.append({"cmd": "git checkout -- %s (rewritten by the test run, not part of the patch)" % f, "exit": 0, "tail": []})
         d1 = sh(["/venv/bin/python", demo], cwd=root, env=env)
         ran.append({"cmd": "demo.py on patched copy", "exit": d1.returncode, "tail": d1.stdout.strip().splitlines()[-3:]})
         print("[%s] demo patched: exit %d" % (sid, d1.returncode))
